@@ -12,9 +12,12 @@ Laws == {"PM(PM(x,a),b)=PM(x,a+b)", "MZM-power-2Vpi-periodic", "MZM-noise-modula
          "LASER-field=sqrt(P)*exp(j*2pi*df*t)", "MZM-pol-spelling"}
 \* phase excursions of 1e-9 .. 1e-5 rad measured through angle(): rounding of the field (1e-16) limits the relative accuracy to about 1e-6
 SmallPhaseLaws == {"PM-small-drive-phase"}
+\* a drive stored as float32 is processed in float32 (eps 6e-8, times the phase excursion of up to a few hundred rad): 3e-4 relative
+SinglePrecisionLaws == {"MZM-single-precision-drive"}
 Bounds == {"MZM-passive-per-sample", "MZM-unselected-polarisation-extinguished"}
 Clauses(e) ==
   CASE e.kind = "law" -> IF e.name \in SmallPhaseLaws THEN (IF e.ppt > 100000000 THEN {e.name} ELSE {})                     \* 1e-4 relative
+                         ELSE IF e.name \in SinglePrecisionLaws THEN (IF e.ppt > 300000000 THEN {e.name} ELSE {})
                          ELSE IF e.name \notin Laws THEN {"unknown-law"} ELSE IF e.ppt > 1000000 THEN {e.name} ELSE {}      \* 1e-6 relative
     [] e.kind = "bound" -> IF e.name \notin Bounds THEN {"unknown-bound"} ELSE IF e.ppb > 1000 THEN {e.name} ELSE {}
     [] e.kind = "ratio" -> IF e.measured - e.erdB > 5 \/ e.erdB - e.measured > 5 THEN {"on-off-ratio-is-ER"} ELSE {}   \* 0.005 dB
